@@ -434,6 +434,10 @@ func genCase(t *rapid.T, g cfg) Case {
 	nargs := n
 	if f.Var != nil {
 		nargs = n + rapid.IntRange(0, g.maxTail).Draw(t, "tail")
+		if rapid.IntRange(0, 19).Draw(t, "longtail") == 10 {
+			// a long variadic tail (the middle of a rapid range: about 3 % of the cases)
+			nargs = n + rapid.SampledFrom(gen.LongSizes[:10]).Draw(t, "longn")
+		}
 	}
 	if chance(t, "wrongarity", g.wrongArityPct) {
 		if f.Var != nil {
